@@ -587,6 +587,17 @@ func (x *Exec) evalCall(env *SpecEnv, e *spec.Call) SVal {
 		return x.evalIdent(env, pid.Name)
 	case "len":
 		v := arg(0)
+		if v.T.Sort == smt.Ref && v.GT != nil {
+			if _, isMap := v.GT.Underlying().(*types.Map); isMap {
+				r, facts := E.mapLen(v.GT, smt.Select(env.heap(E.mapDomHeap(v.GT)), v.T))
+				if env.S != nil {
+					for _, f := range facts {
+						env.S.assume(f)
+					}
+				}
+				return SVal{T: smt.Ite(smt.Eq(v.T, RefNil), smt.IntC(0), r)}
+			}
+		}
 		if v.T.Sort.Kind != smt.KSeq {
 			specFail("len of non-sequence %s", e.Args[0])
 		}
